@@ -19,10 +19,12 @@ EXPLANATION = (
     "R-measure-keys / R-hooks-exhaustive (measures returned cover the accepted sort_by values, every "
     "hook is defined); R-measure-formula (monomial normal form: cramerv = chi2^1/2 n^-1/2, tschuprowt "
     "= chi2^1/2 n^-1/2 (r-1)^-1/4, kruskal = scipy H); R-drop-only-if-none; R-enum-bounds (canonical "
-    "bounds of the consecutive-grouping and missing-value enumerators and of their call sites)."
+    "bounds of the consecutive-grouping and missing-value enumerators and of their call sites); "
+    "R-printer-agreement (the statistics frame read by the viability test is returned as built, not "
+    "rounded); R-default-minfreqmod (min_freq_mod defaults to min_freq / 2 only when None: an explicit 0 is kept)."
 )
 NOT_DECIDED = "completeness of the recursive enumerator (all compositions), scipy's chi2/kruskal, numerical maximality on a dataset"
-FLOORS = {"R-select-order": 3, "R-viability-formula": 1, "R-adjacency-order": 3, "R-aggregate-fill": 2, "R-measure-keys": 2, "R-measure-formula": 3, "R-hooks-exhaustive": 2, "R-drop-only-if-none": 4, "R-enum-bounds": 11}
+FLOORS = {"R-select-order": 3, "R-viability-formula": 1, "R-adjacency-order": 3, "R-aggregate-fill": 2, "R-measure-keys": 2, "R-measure-formula": 3, "R-hooks-exhaustive": 2, "R-drop-only-if-none": 5, "R-enum-bounds": 11, "R-printer-agreement": 2, "R-default-minfreqmod": 2}
 
 
 def check(ctx):
@@ -35,6 +37,11 @@ def check(ctx):
     carver.check_hooks(ctx, "R-hooks-exhaustive")
     carver.check_drop_only_if_none(ctx, "R-drop-only-if-none")
     carver.check_enum_bounds(ctx, "R-enum-bounds")
+    carver.check_stage_results(ctx, "R-drop-only-if-none")
+    carver.check_printer_raw(ctx, "R-printer-agreement")
+    from . import c02
+
+    c02.rule_default(ctx)
 
 
 _D1_BIN_FIXED = """        # converting back to dataframe, keeping groups in the order of the feature's modalities
@@ -63,6 +70,10 @@ MUTANTS = [
     M("dev frequencies compared with min_freq", [(F_BC, "                    min_freq_dev = all(dev_rates[\"frequency\"] >= self.min_freq_mod)", "                    min_freq_dev = all(dev_rates[\"frequency\"] >= self.min_freq)")], "R-viability-formula"),
     M("dev distinctness tested on the train frame", [(F_BC, "                        isclose(dev_rates[\"target_rate\"][1:], dev_rates[\"target_rate\"].shift(1)[1:])", "                        isclose(train_rates[\"target_rate\"][1:], train_rates[\"target_rate\"].shift(1)[1:])")], "R-viability-formula"),
     M("accepted although not viable on dev", [(F_BC, "                    if dev_viable:\n                        best_association = association  # found best viable combination", "                    if dev_viable or train_viable:\n                        best_association = association  # found best viable combination")], "R-viability-formula"),
+    M("falsy min_freq_mod replaced by the default", [(F_BC, "        if min_freq_mod is None:\n            min_freq_mod = min_freq / 2\n        self.min_freq_mod = min_freq_mod  # minimum frequency per final bucket", "        self.min_freq_mod = min_freq_mod or min_freq / 2  # minimum frequency per final bucket")], "R-default-minfreqmod"),
+    M("first pair of groups never compared", [(F_BC, "                isclose(train_rates[\"target_rate\"][1:], train_rates[\"target_rate\"].shift(1)[1:])", "                isclose(train_rates[\"target_rate\"][1:], train_rates[\"target_rate\"].shift(-1)[1:])")], "R-viability-formula"),
+    M("statistics rounded for display before the viability test", [(F_BIN, "                    \"frequency\": xtab.sum(axis=1) / xtab.sum().sum(),\n                }\n            )", "                    \"frequency\": xtab.sum(axis=1) / xtab.sum().sum(),\n                }\n            ).round(4)")], "R-printer-agreement", "BinaryCarver._printer"),
+    M("failed missing-value stage keeps the stage-1 carving", [(F_BC, "                # getting most associated combination\n                best_association, order = self._get_best_association(\n                    feature,\n                    order,\n                    xagg,\n                    combinations,\n                    xagg_dev=xagg_dev,\n                    dropna=True,\n                )", "                # getting most associated combination\n                nan_association, nan_order = self._get_best_association(\n                    feature,\n                    order,\n                    xagg,\n                    combinations,\n                    xagg_dev=xagg_dev,\n                    dropna=True,\n                )\n                if nan_association is not None:\n                    order = nan_order")], "R-drop-only-if-none", "search stage"),
     M("tschuprowt divides by sqrt(r-1) instead of its fourth root", [(F_BIN, "        tschuprowt = cramerv / sqrt(sqrt(n_mod_x - 1))", "        tschuprowt = cramerv / sqrt(n_mod_x - 1)")], "R-measure-formula", "tschuprowt"),
     M("cramerv not normalised by n", [(F_BIN, "        cramerv = sqrt(chi2 / n_obs)", "        cramerv = sqrt(chi2)")], "R-measure-formula", "cramerv"),
     M("measure key renamed", [(F_BIN, "        return {\"cramerv\": cramerv, \"tschuprowt\": tschuprowt}", "        return {\"cramerv\": cramerv, \"tschuprow\": tschuprowt}")], "R-measure-keys"),
